@@ -60,7 +60,7 @@ CLAIMED = {
          "rest back), and a lock key survives only if a command of the exit phase itself failed. The BODY keeps the lock bookkeeping in step with the store for any program "
          "over data keys and any fault set (per-backend invariant BI), which gives the end-to-end theorem: after the block no lock-shaped key is left in any involved store "
          "unless a command issued after the body failed. The correspondence enumerates EVERY single fault "
-         "position (and pairs) of 36 program/mode combinations against the real code with raising wrappers, in three spellings of the block, and in half of the cases on a backend with latency (a command that succeeds takes an event-loop turn, one that fails fails at once).",
+         "position (and pairs) of 48 program/mode combinations (set / incr / delete / set_many / get / expire) against the real code with raising wrappers, in three spellings of the block, in half of the cases on a backend with latency (a command that succeeds takes an event-loop turn, one that fails fails at once); every single position also ends with CancelledError (judged on: the task has left the transaction); lock keys are inspected the moment the block is left and a few event-loop turns later; values and lifetimes of the data keys are compared.",
          "A fault = the command raises an Exception with no effect (BaseException-class faults are outside: a second one during rollback skips the remaining backends); single task; set iteration order of lock keys taken from the clean run.",
          "Coq proof (release protocol for arbitrary fault sets) + exhaustive single/pair fault enumeration against the real code", "3/C16"),
  "C03": ("Theorems over the Gallina image of TransactionBackend (overlay, pending deletes, commit, rollback) on the TTL-map spec: no transactional command "
@@ -85,7 +85,8 @@ CLAIMED = {
          "Proved WITH TTLs (keys and tag sets with any deadlines, lazy expiry at every step, time-ordered history): F20 is the only way TTLs break completeness - in every "
          "history in which no tagged write leaves a tag set with a deadline earlier than that of one of its live members (Run.C12.excl_f20 = false, the predicate by which "
          "the check classifies F20), after delete_tags(t) at any later time no key whose latest write carried t is readable (third invariant, carried through expiry). "
-         "The model (tags.py + Memory set commands + on-remove callback with lazy expiry made deterministic by probing) is compared with the real facade step by "
+         "The lazy-expiry variant of the model (keys that are only watched between the commands stay in the store past their deadline until a command meets them) is proved equal to the model of these theorems when every key is read between the commands. "
+         "The model (tags.py + Memory set commands + on-remove callback with lazy expiry made deterministic by probing; a third of the histories leave some keys unread) is compared with the real facade step by "
          "step; any oracle failure not containing a recorded situation (Run.C12.excl_f20 / excl_f21 on the shrunk history) is reported as a violation.",
          "Completeness fails with TTLs exactly in the F20 situation (refuted there, proved everywhere else); precision fails for unregistered tags (F21) and is proved for registered ones without TTLs (not with TTLs). Partial.",
          "Coq proof (partial + refutation witnesses) + differential correspondence + known-finding predicates", "3/C12"),
